@@ -4,6 +4,7 @@ go 1.23
 
 require (
 	github.com/asticode/go-astisub v0.0.0
+	golang.org/x/text v0.3.2
 	pgregory.net/rapid v1.3.0
 )
 
@@ -11,7 +12,6 @@ require (
 	github.com/asticode/go-astikit v0.20.0 // indirect
 	github.com/asticode/go-astits v1.8.0 // indirect
 	golang.org/x/net v0.0.0-20200904194848-62affa334b73 // indirect
-	golang.org/x/text v0.3.2 // indirect
 )
 
 replace github.com/asticode/go-astisub => /repo
